@@ -68,6 +68,9 @@ def site (p : Pol) (t : Tag) : M Unit :=
 /-- a policy site behind a condition -/
 def condSite (c : Bool) (p : Pol) (t : Tag) : M Unit := if c then site p t else pure ()
 
+/-- an unconditional error behind a condition -/
+def condFail (c : Bool) (t : Tag) : M Unit := if c then M.fail t else pure ()
+
 /-! ### headerfielddef.go -/
 
 def recTypeOfName (lc : Bytes) : Nat :=
@@ -219,19 +222,18 @@ def digestFromField (o : Opts) (field : Bytes) : M Digest := do
 
 def setInt (h : Fields) (n : Bytes) (i : Int) : Fields := h.set n (intToDec i)
 
-/-- newHttpBlock on the available content bytes; `fault` = the content reader ends with an error instead of EOF -/
+/-- newHttpBlock on the available content bytes -/
 def newHttpBlock (o : Opts) (Ω : Oracles) (content : Bytes) (bd pd : Digest) : M Block := do
-  if content.length < 4 then M.fail .notHttp
+  condFail (content.length < 4) .notHttp
   let hb := (headerBytes content).1
   let found := (headerBytes content).2.2
-  if !found then site o.syn .httpEoh
+  condSite (!found) o.syn .httpEoh
   let hb' := if !found && o.fixSyntaxErrors then hb ++ crlf else hb
-  if !found && o.fixSyntaxErrors then
-    let h ← M.hdr
-    M.setHdr (setInt h (bs "Content-Length") (wrap64 (contentLengthOf h + 2)))
+  let h ← M.hdr
+  M.setHdr (if !found && o.fixSyntaxErrors then setInt h (bs "Content-Length") (wrap64 (contentLengthOf h + 2)) else h)
   let isResp := hasPrefix (bs "HTTP") hb'
   let parseInput := if !found && !o.fixSyntaxErrors then hb' ++ crlf else hb'
-  if !Ω.http isResp parseInput then site o.blk .httpParse
+  condSite (!Ω.http isResp parseInput) o.blk .httpParse
   pure { kind := if isResp then .httpResp else .httpReq, raw := hb' ++ (headerBytes content).2.1, headLen := hb'.length,
          blockDigest := bd, payloadDigest := some pd }
 
@@ -240,22 +242,38 @@ def wfFindings : List Tag → M Unit
   | [] => pure ()
   | _ :: rest => do M.finding .wfBlock; wfFindings rest
 
-def newWarcFieldsBlock (o : Opts) (content : Bytes) (fault : Bool) (bd : Digest) : M Block := do
-  if fault then site o.syn .reader
-  let res := parseFields o.syn ⟨content, false⟩
-  let (fieldsOpt, inner, perr) : Option Fields × List Tag × Option Tag := match res with
-    | .ok fs fnd _ => (some fs, fnd, none)
-    | .err t fnd => (none, fnd, some t)
-  if o.blk != .ignore && !inner.isEmpty then
-    match o.blk with
-    | .warn => wfFindings inner
-    | _ => M.fail .wfBlock
-  let content' := match fieldsOpt with
-    | some fs => if o.fixWarcFieldsBlockErrors && !inner.isEmpty then fs.write else content
-    | none => content
-  match perr with
+/-- what the block axis does with the findings of the inner parse -/
+def wfReport (blk : Pol) (inner : List Tag) : M Unit :=
+  match blk with
+  | .ignore => pure ()
+  | .warn => wfFindings inner
+  | .fail => condFail (!inner.isEmpty) .wfBlock
+
+def ParseRes.fieldsOpt : ParseRes → Option Fields
+  | .ok fs _ _ => some fs
+  | .err _ _ => none
+def ParseRes.findings : ParseRes → List Tag
+  | .ok _ f _ => f
+  | .err _ f => f
+def ParseRes.errTag : ParseRes → Option Tag
+  | .ok .. => none
+  | .err t _ => some t
+
+/-- newWarcFieldsBlock after the inner parse: report through the block axis, optionally rewrite the content, return the
+    inner parse error regardless of the block policy -/
+def wfFinish (blk : Pol) (fixWf : Bool) (content : Bytes) (bd : Digest) (res : ParseRes) : M Block := do
+  wfReport blk res.findings
+  match res.errTag with
   | some t => M.fail t
-  | none => pure { kind := .warcFields, raw := content', headLen := 0, blockDigest := bd, payloadDigest := none }
+  | none => pure { kind := .warcFields,
+                   raw := (match res.fieldsOpt with
+                     | some fs => if fixWf && !res.findings.isEmpty then fs.write else content
+                     | none => content),
+                   headLen := 0, blockDigest := bd, payloadDigest := none }
+
+def newWarcFieldsBlock (o : Opts) (content : Bytes) (fault : Bool) (bd : Digest) : M Block := do
+  condSite fault o.syn .reader
+  wfFinish o.blk o.fixWarcFieldsBlockErrors content bd (parseFields o.syn ⟨content, false⟩)
 
 /-- record.go parseBlock -/
 def parseBlock (o : Opts) (Ω : Oracles) (rt : Nat) (content : Bytes) (fault : Bool) : M Block := do
@@ -283,25 +301,23 @@ def Block.payload (b : Block) : Bytes := b.raw.drop b.headLen
 def checkDigest (o : Opts) (field : Bytes) (tag : Tag) (d : Digest) (data : Bytes) : M Unit := do
   let h ← M.hdr
   if d.hash.isEmpty then
-    if o.addMissingDigest then M.setHdr (h.set field (d.format H data))
-  else if o.spec != .ignore then
-    if !d.valid H data then
-      site o.spec tag
-      if o.fixDigest then
-        let h ← M.hdr
-        M.setHdr (h.set field (d.format H data))
+    M.setHdr (if o.addMissingDigest then h.set field (d.format H data) else h)
+  else do
+    condSite (o.spec != .ignore && !d.valid H data) o.spec tag
+    let h ← M.hdr
+    M.setHdr (if o.spec != .ignore && !d.valid H data && o.fixDigest then h.set field (d.format H data) else h)
+
+def lengthBad (o : Opts) (h : Fields) (b : Block) : Bool :=
+  o.spec != .ignore && h.has (bs "Content-Length") && natToDec b.raw.length != h.get (bs "Content-Length")
 
 /-- record.go ValidateDigest (the block has been read completely; a reader fault while caching it is an error) -/
 def validateDigest (o : Opts) (rt : Nat) (b : Block) (fault : Bool) : M Unit := do
   -- Cache(): http kinds and generic blocks read their source; revisit / warc-fields blocks hold their bytes already
-  if fault && (b.kind == .generic || b.kind == .httpReq || b.kind == .httpResp) then M.fail .reader
-  if o.spec != .ignore then
-    let h ← M.hdr
-    if h.has (bs "Content-Length") && natToDec b.raw.length != h.get (bs "Content-Length") then
-      site o.spec .length
-      if o.fixContentLength then
-        let h ← M.hdr
-        M.setHdr (h.set (bs "Content-Length") (natToDec b.raw.length))
+  condFail (fault && (b.kind == .generic || b.kind == .httpReq || b.kind == .httpResp)) .reader
+  let h ← M.hdr
+  condSite (lengthBad o h b) o.spec .length
+  let h' ← M.hdr
+  M.setHdr (if lengthBad o h b && o.fixContentLength then h'.set (bs "Content-Length") (natToDec b.raw.length) else h')
   checkDigest H o (bs "WARC-Block-Digest") .digestBlock b.blockDigest b.raw
   let h ← M.hdr
   if rt == RT_Revisit || h.has (bs "WARC-Segment-Number") then pure ()
@@ -349,43 +365,43 @@ def versionOf (o : Opts) (txt : Bytes) : M (Bytes × Nat) :=
 
 def endTag (fault : Bool) : Tag := if fault then .reader else .eof
 
+/-- how many of the bytes after the block the trailer check consumes when they are not CR LF CR LF -/
+def trailerConsumed (buf : Bytes) : Nat :=
+  if buf.length == 0 then 0
+  else if buf.length == 1 && buf == [LF] then 1
+  else if buf.length == 2 && buf == [LF, LF] then 2
+  else if buf.length < 4 then buf.length
+  else 0
+
+/-- Unmarshal once the header fields `fs` have been parsed and `s'` is the stream behind the header section:
+    validation, block (cut out by Content-Length), digests, trailer. From here on a record object exists. -/
+def unmarshalTail (o : Opts) (Ω : Oracles) (vtxt : Bytes) (vid : Nat) (fs : Fields) (s' : Stream) : M (Option Rec × Bytes) := do
+  M.setHdr fs
+  let rt ← validateHeader o Ω vid
+  let h ← M.hdr
+  let len := contentLengthOf h
+  let content := if len < 0 then s'.rest else s'.rest.take len.toNat
+  let after := if len < 0 then [] else s'.rest.drop len.toNat
+  let cfault := s'.fault && (decide (len < 0) || decide (s'.rest.length < len.toNat))   -- the content reader hit the end of the stream
+  let b ← parseBlock o Ω rt content cfault
+  validateDigest H o rt b cfault
+  -- trailer
+  condSite (after.take 4 != crlfcrlf) o.spec .specTrailer
+  let h ← M.hdr
+  pure (some { verTxt := vtxt, verId := vid, rt := rt, hdr := h, block := b },
+        if after.take 4 == crlfcrlf then after.drop 4 else after.drop (trailerConsumed (after.take 4)))
+
+/-- what Unmarshal does with the outcome of the header parser -/
+def unmarshalRest (o : Opts) (Ω : Oracles) (vtxt : Bytes) (vid : Nat) (res : ParseRes) : M (Option Rec × Bytes) :=
+  match res with
+  | .err t fnd => do M.addFindings fnd; M.fail t
+  | .ok fs fnd s' => do M.addFindings fnd; unmarshalTail H o Ω vtxt vid fs s'
+
 /-- the record body after the version line: header, validation, block, digests, trailer. Runs in `M`. -/
 def unmarshalBody (o : Opts) (Ω : Oracles) (s : Stream) (verLine : Bytes) : M (Option Rec × Bytes) := do
-  if verLine.length < 2 || verLine.getD (verLine.length - 2) 0 != CR then site o.syn .synMissingCR
-  let (vtxt, vid) ← versionOf o (trim isWs verLine)
-  -- header
-  match parseFields o.syn s with
-  | .err t fnd => do M.addFindings fnd; M.fail t
-  | .ok fs fnd s' =>
-    M.addFindings fnd
-    M.setHdr fs
-    let rt ← validateHeader o Ω vid
-    let h ← M.hdr
-    let len := contentLengthOf h
-    let content := if len < 0 then s'.rest else s'.rest.take len.toNat
-    let after := if len < 0 then [] else s'.rest.drop len.toNat
-    let short := len < 0 || s'.rest.length < len.toNat      -- the content reader hit the end of the stream
-    let cfault := s'.fault && short
-    -- from here on a record object exists: errors return it
-    let mk (b : Block) : M Rec := do
-      let h ← M.hdr
-      pure { verTxt := vtxt, verId := vid, rt := rt, hdr := h, block := b }
-    let b ← parseBlock o Ω rt content cfault
-    validateDigest H o rt b cfault
-    -- trailer
-    let buf := after.take 4
-    if buf == crlfcrlf then
-      let r ← mk b
-      pure (some r, after.drop 4)
-    else
-      let consumed := if buf.length == 0 then 0
-        else if buf.length == 1 && buf == [LF] then 1
-        else if buf.length == 2 && buf == [LF, LF] then 2
-        else if buf.length < 4 then buf.length
-        else 0
-      site o.spec .specTrailer
-      let r ← mk b
-      pure (some r, after.drop consumed)
+  condSite (decide (verLine.length < 2) || verLine.getD (verLine.length - 2) 0 != CR) o.syn .synMissingCR
+  let v ← versionOf o (trim isWs verLine)
+  unmarshalRest H o Ω v.1 v.2 (parseFields o.syn s)
 
 /-- the part of Unmarshal after the five magic bytes `WARC/` were read from `r` (the plain stream or a gzip member) -/
 def unmarshalAfterMagic (o : Opts) (Ω : Oracles) (off : Nat) (fnd0 : List Tag) (after : Stream) : URes :=
@@ -394,6 +410,13 @@ def unmarshalAfterMagic (o : Opts) (Ω : Oracles) (off : Nat) (fnd0 : List Tag) 
     match unmarshalBody H o Ω ⟨(readBytesNL after.rest).2.1, after.fault⟩ (readBytesNL after.rest).1 ⟨[], fnd0⟩ with
     | (.ok (r, rest), st) => ⟨r, off, st.fnd, none, rest⟩
     | (.error t, st) => ⟨none, off, st.fnd, some t, []⟩
+
+/-- after the record was read from a gzip member: the rest of the member is drained (a damaged member surfaces here at
+    the latest), and reading continues after the member -/
+def gzFinish (r : URes) (bad : Bool) (restAfterMember : Bytes) : URes :=
+  match r.err with
+  | some _ => r
+  | none => if bad then { r with err := some .reader } else { r with rest := restAfterMember }
 
 /-- Unmarshal -/
 def unmarshal (o : Opts) (Ω : Oracles) (s : Stream) : URes :=
@@ -415,10 +438,7 @@ def unmarshal (o : Opts) (Ω : Oracles) (s : Stream) : URes :=
           if content.length < 5 then ⟨none, off, fnd0, some (if content.isEmpty && !bad then .eof else .reader), []⟩
           else if content.take 5 != bs "WARC/" then ⟨none, off, fnd0, some .versionMissing, []⟩
           else
-            let r := unmarshalAfterMagic H o Ω off fnd0 ⟨content.drop 5, bad⟩
-            match r.err with
-            | some _ => r
-            | none => if bad then { r with err := some .reader } else { r with rest := atMagic.drop consumed }
+            gzFinish (unmarshalAfterMagic H o Ω off fnd0 ⟨content.drop 5, bad⟩) bad (atMagic.drop consumed)
       else unmarshalAfterMagic H o Ω off fnd0 ⟨atMagic.drop 5, s.fault⟩
 
 /-! ### builder -/
